@@ -1,7 +1,11 @@
 package peer
 
 import (
+	"crypto/ecdh"
 	"crypto/ed25519"
+
+	"github.com/aperturerobotics/bifrost/util/extra25519"
+	"github.com/zeebo/blake3"
 
 	"github.com/aperturerobotics/bifrost/crypto"
 	rt "github.com/aperturerobotics/bifrost/zz_verifrt"
@@ -87,5 +91,91 @@ func VerifC13Ed25519() {
 	rt.Assert("derived pair consistent", p1 != nil && pub1 != nil && p1.GetPublic().Equals(pub1))
 	p2, _, err := DeriveEd25519Key(ctx, salt, k)
 	rt.Assert("derivation repeatable", err == nil && p1.Equals(p2))
+	rt.Reach("end")
+}
+
+// c13SaltLens: salt length classes: short ones and ones around where a fixed-size staging buffer for
+// "prefix || salt || material" (23 + salt + 32 bytes) would overflow 64, 128 or 256 bytes.
+func c13SaltLens() []int {
+	if rt.Tier() > 0 {
+		return []int{0, 1, 3, 9, 10, 41, 42, 73, 74, 105, 106, 201, 202, 233, 234}
+	}
+	return []int{0, 1, 9, 10, 73, 74, 105, 106}
+}
+
+// c13Reference is the specification of DeriveKey written against the same primitives: the X25519 form
+// of the key, an ephemeral key seeded by BLAKE3(x25519 key || context), their shared secret xored with
+// the repeated context, and BLAKE3-derive(context) over prefix || salt || that material.
+func c13Reference(context string, salt []byte, seed []byte, n int) ([]byte, bool) {
+	std := ed25519.NewKeyFromSeed(seed)
+	x := extra25519.PrivateKeyToCurve25519(std)
+	xk, err := ecdh.X25519().NewPrivateKey(x[:32])
+	if err != nil {
+		return nil, false
+	}
+	ephSeed := blake3.Sum256(append(append([]byte{}, x[:]...), context...))
+	eph := ed25519.NewKeyFromSeed(ephSeed[:])
+	ephX, valid := extra25519.PublicKeyToCurve25519(eph.Public().(ed25519.PublicKey))
+	if !valid {
+		return nil, false
+	}
+	ephPub, err := ecdh.X25519().NewPublicKey(ephX[:])
+	if err != nil {
+		return nil, false
+	}
+	material, err := xk.ECDH(ephPub)
+	if err != nil {
+		return nil, false
+	}
+	m := make([]byte, len(material))
+	for i := range material {
+		m[i] = material[i] ^ context[i%len(context)]
+	}
+	in := append([]byte("bifrost/peer/derive-key"), salt...)
+	in = append(in, m...)
+	out := make([]byte, n)
+	blake3.DeriveKey(context, in, out)
+	return out, true
+}
+
+// VerifC13Salt: for salts of every length class and output lengths on both sides of the digest size
+// the result is exactly the specified derivation: the whole salt and the whole key material reach the
+// KDF; two salts of one length class that differ anywhere give different outputs.
+func VerifC13Salt() {
+	k1, seed1 := c13Key("seed1")
+	ctx := rt.String("ctx", 1, 2)
+	salt1 := rt.BytesOfLen("salt1", c13SaltLens()...)
+	n := []int{32, 64}[rt.Choose("outlen", 2)]
+	o1, err1 := c13Derive(ctx, salt1, k1, n)
+	ref, ok := c13Reference(ctx, salt1, seed1, n)
+	rt.Assert("DeriveKey fails exactly when the specified derivation is undefined", (err1 == nil) == ok)
+	if err1 != nil {
+		return
+	}
+	rt.Assert("the output is the specified derivation of (key, context, salt)", rt.BytesEq(o1, ref))
+	salt2 := rt.Bytes("salt2", len(salt1), len(salt1))
+	o2, err2 := c13Derive(ctx, salt2, k1, n)
+	if err2 != nil {
+		return
+	}
+	rt.Assert("salts that differ anywhere give different outputs", rt.Implies(rt.Not(rt.BytesEq(salt1, salt2)), rt.Not(rt.BytesEq(o1, o2))))
+	rt.Reach("end")
+}
+
+// VerifC13OutLen: every byte of the output buffer is determined by (key, context, salt), whatever the
+// buffer held before, for output lengths on both sides of the 32-byte digest size.
+func VerifC13OutLen() {
+	k, _ := c13Key("seed")
+	ctx := rt.String("ctx", 1, 1)
+	salt := rt.Bytes("salt", 0, 1)
+	n := []int{1, 31, 32, 33, 64, 65}[rt.Choose("outlen", 6)]
+	o1 := rt.Bytes("previous1", n, n)
+	o2 := rt.Bytes("previous2", n, n)
+	err1 := DeriveKey(ctx, salt, k, o1)
+	err2 := DeriveKey(ctx, salt, k, o2)
+	if err1 != nil || err2 != nil {
+		return
+	}
+	rt.Assert("the output does not depend on what the buffer held before", rt.BytesEq(o1, o2))
 	rt.Reach("end")
 }
